@@ -69,7 +69,7 @@ pub fn to_simple(bbox: [i16; 4], contours: &[Vec<Pt>], instr: &[u8]) -> w::Simpl
         bbox: to_bbox(bbox),
         contours: contours
             .iter()
-            .map(|c| w::Contour::from(c.iter().map(|p| w::CurvePoint::new(p.x, p.y, p.on)).collect::<Vec<_>>()))
+            .map(|c| w::Contour::from(c.iter().map(|p| read_fonts::tables::glyf::CurvePoint::new(p.x, p.y, p.on)).collect::<Vec<_>>()))
             .collect(),
         instructions: instr.to_vec(),
     }
